@@ -47,13 +47,14 @@ ANCHORS = [("deap/algorithms.py", []), ("deap/tools/support.py", ["HallOfFame", 
            ("deap/creator.py", []), ("deap/gp.py", ["MetaEphemeral", "Primitive", "Terminal", "PrimitiveTree"]),
            ("deap/base.py", ["Toolbox", "Fitness"]), ("doc/tutorials/advanced/checkpoint.rst", [])]
 LEVEL = "partial"
-RULE = ("13 families (harness/props/c17_families.py): GA on lists, NSGA-II (ngen=10, MU=16), SPEA2, NSGA-III with "
+RULE = ("15 families (harness/props/c17_families.py): GA on lists, NSGA-II (ngen=10, MU=16), SPEA2, NSGA-III with "
         "memory, GP with ephemerals (node replacement / ephemeral / insert / shrink mutations, tight staticLimit, ngen=6), "
         "CMA-ES (array individuals), (1+lambda)-CMA, MO-CMA-ES with mu = lambda, mu < lambda and mu > lambda, ES on "
         "float32 numpy individuals, CMA-ES N=30 lambda=6 (ngen=6), GA with MultiStatistics chapters whose logbook is "
+        "streamed, strongly typed GP with a bool<int hierarchy and a third builtin type / a third user-defined type (two families, ngen=4); the GA logbook is "
         "streamed every 2 generations; 3 variants built from caller-owned shared cmatrix/centroid/parent/population "
-        "and the 4 packaged loops of deap.algorithms for (a) and (c).  EVERY tier: (a) det for all 20; (b) kill/resume "
-        "for ALL 13 families at EVERY generation 0..ngen (quick: ngen=3 unless stated, two pickle protocols per crash "
+        "and the 4 packaged loops of deap.algorithms for (a) and (c).  EVERY tier: (a) det for all 22 (GP families in fresh interpreters with six different PYTHONHASHSEEDs and six different import histories); (b) kill/resume "
+        "for ALL 15 families at EVERY generation 0..ngen (quick: ngen=3 unless stated, two pickle protocols per crash "
         "point rotating so that all six occur; thorough: ngen=6, all six protocols, 3 seeds); (c) fork pools with worker "
         "counts 1..8 (quick: all eight for GA and eaSimple, three per other family) and one spawn pool, random per-task "
         "delays; all 24 permutations of the 4-task map calls of the small variants + reverse/rotate/random schedules. "
@@ -85,13 +86,22 @@ EXPLANATION = ("The protocol lines of this check (pmap with a schedule, toy resu
 PROTOCOLS = list(range(0, pickle.HIGHEST_PROTOCOL + 1))
 POOL_TIMEOUT = 120
 READY_TIMEOUT = 180
+# child interpreters differ in their IMPORT / ALLOCATION HISTORY too (C17_PRELUDE), so that anything ordered by object
+# addresses (sets of classes, id-keyed dicts) is exposed, not only str-hash order
+PRELUDES = {"0": "pass", "1": "import email, decimal, xml.dom.minidom",
+            "2": "junk = [object() for _ in range(1000)]; import unittest, csv",
+            "3": "junk = [type('J%d' % i, (object,), {}) for i in range(37)]",
+            "4": "import argparse, fractions; junk = [type('K%d' % i, (), {}) for i in range(5)]",
+            "5": "junk = [dict(a=i) for i in range(333)]; import sqlite3"}
 CHILD = [sys.executable, "-c",
-         "import sys; sys.path.insert(0, %r); from props import c17_families as F; F.main(sys.argv[1:])" % HARNESS]
+         "import os, sys; exec(%r.get(os.environ.get('C17_PRELUDE', '0'), 'pass')); sys.path.insert(0, %r); "
+         "from props import c17_families as F; F.main(sys.argv[1:])" % (PRELUDES, HARNESS)]
 
 
 def child_env(hashseed):
     env = dict(os.environ, DEAP_REPO=REPO)
     env["PYTHONHASHSEED"] = str(hashseed)
+    env["C17_PRELUDE"] = str(hashseed % 6)
     return env
 
 
@@ -156,13 +166,22 @@ def eval_det(d):
         orc = ("the run modified objects owned by the caller (cmatrix / centroid / parent / initial population "
                "handed to the strategy constructor)")
     if orc is None:
-        p = subprocess.run(CHILD + ["run", fam, str(seed), str(ngen)], stdout=subprocess.PIPE, stderr=subprocess.PIPE,
-                           text=True, timeout=600, env=child_env(d.get("hs", 1)))
-        if p.returncode != 0:
-            orc = "fresh interpreter run failed: %s" % p.stderr[-600:]
-        else:
-            out = json.loads(p.stdout.strip().split("\n")[-1])
-            orc = compare("run in a fresh interpreter", out["trace"], out["final"], rtrace, rfinal)
+        # fresh interpreters; families that build name-keyed structures (GP primitive sets) are started with SEVERAL
+        # different string-hash seeds, so that any dependence on str-hash iteration order shows up
+        hs0 = d.get("hs", 1)
+        hss = [hs0 + i for i in range(6)] if F.hash_sensitive(fam) else [hs0]
+        procs = [(h, subprocess.Popen(CHILD + ["run", fam, str(seed), str(ngen)], stdout=subprocess.PIPE,
+                                      stderr=subprocess.PIPE, text=True, env=child_env(h))) for h in hss]
+        for h, p in procs:
+            out, err = p.communicate(timeout=600)
+            if orc is not None:
+                continue
+            if p.returncode != 0:
+                orc = "fresh interpreter run (PYTHONHASHSEED=%d) failed: %s" % (h, err[-600:])
+            else:
+                res = json.loads(out.strip().split("\n")[-1])
+                orc = compare("run in a fresh interpreter started with PYTHONHASHSEED=%d" % h, res["trace"],
+                              res["final"], rtrace, rfinal)
     if orc:
         orc = "family=%s seed=%d ngen=%d: %s" % (fam, seed, ngen, orc)
     return Case(d, [], [], orc, tag="det/%s" % fam)
@@ -406,6 +425,12 @@ def generate(tier, rng, mult):
     for s in seeds:
         for f in F.SHARED + fams + F.PACKAGED:
             yield {"k": "det", "family": f, "seed": s, "ngen": F.ngen_for(f, ngen), "hs": hs}
+    # address / hash-order sensitivity shows only in some runs: the user-typed GP family gets more run seeds
+    for f in fams:
+        if F.hash_sensitive(f) and f.endswith("_user"):
+            for _ in range(4):
+                yield {"k": "det", "family": f, "seed": rng.randint(0, 10 ** 6), "ngen": F.ngen_for(f, ngen),
+                       "hs": rng.randint(1, 10 ** 6)}
     # (b) EVERY family, every crash point
     for s in seeds:
         for f in fams + (["cma_es_shared"] if thorough else []):
